@@ -30,7 +30,7 @@ func newReduceMin() ops.Operator {
 // Init initializes the reduceMin operator.
 func (r *ReduceMin) Init(n *onnx.NodeProto) error {
 	attributes := n.GetAttribute()
-	if len(attributes) == 0 || len(attributes) > MaxReduceMinAttributes {
+	if len(attributes) > MaxReduceMinAttributes {
 		return ops.ErrInvalidOptionalAttributeCount(MinReduceMinAttributes, MaxReduceMinAttributes, len(attributes), r)
 	}
 
@@ -72,6 +72,13 @@ func (r *ReduceMin) Apply(inputs []tensor.Tensor) ([]tensor.Tensor, error) {
 
 	if ops.HasDuplicates(sortedAxes) {
 		return nil, ops.ErrInvalidInput("axes cannot have duplicate entries after offset", r)
+	}
+
+	// Without axes all dimensions are reduced.
+	if len(axes) == 0 {
+		for i := 0; i < rank; i++ {
+			axes = append(axes, i)
+		}
 	}
 
 	out, err := input.Min(axes...)
